@@ -7,6 +7,10 @@
 //  * fopen/fopen64/open/openat/write/writev/pwrite/rename/truncate/ftruncate/unlink/remove on the store's files are
 //    recorded as events (A:<file>:<hex> append, T:<file>:<n> truncate/create-trunc, R:<a>:<b> rename, U:<file> unlink);
 //    consecutive appends to one file are one event.  Every call is forwarded unchanged.
+//  * pthread_rwlock_wrlock (what std::shared_mutex::lock() calls) -> the schedule gate of the `racegate` op: the thread that
+//    runs get(k) is stopped at its exclusive acquisition of KVStore::_cacheMutex (inside updateCache, cache-miss path) until
+//    a writer thread has either returned or is about to block on KVStore::_mutex (its first pthread_rwlock_trywrlock failed).
+//    Outside an armed gate every call is forwarded unchanged.
 #pragma once
 #include <algorithm>
 #include <atomic>
@@ -58,6 +62,28 @@ static std::atomic<long long> g_steadyTicks{0};
 static std::atomic<long long> g_steadyBase{0};
 static std::atomic<unsigned long> g_clockReal{0}, g_clockMono{0}, g_slicedWaits{0}, g_stressReads{0};
 
+// ------------------------------------------------------------------ schedule gate (racegate)
+struct Gate
+{
+  std::atomic<bool> armed{false};                     // the reader has not reached the gate yet
+  std::atomic<pthread_rwlock_t *> target{nullptr};    // &_cacheMutex: the exclusive acquisition to stop at
+  std::atomic<pthread_rwlock_t *> storeLock{nullptr}; // &_mutex: the lock the writer needs first
+  pthread_t reader{};
+  pthread_t writer{};
+  std::atomic<bool> writerActive{false};              // `writer` is valid and inside its operation
+  std::atomic<bool> go{false};                        // the writer may start
+  std::atomic<bool> writerBlocked{false}, writerDone{false};
+  std::atomic<bool> gatedIsWriter{false};             // `wracegate`: the gated call is set(k, v) (counted apart)
+};
+static Gate g_gate;
+// gate_hits: get() reached the gate; writer_blocked: the writer had to wait for the reader's hold of _mutex (the lock scope the
+// model assumes); writer_passed: the writer RETURNED while the reader stood between its lookup and its cache refill
+static std::atomic<unsigned long> g_gateOps{0}, g_gateHits{0}, g_gateWriterBlocked{0}, g_gateWriterPassed{0}, g_gateTimeouts{0};
+// the same for `wracegate` (gated call = set(k, v) at the _cacheMutex acquisition of its updateCache; ties writersTouchCacheUnderStoreLock)
+static std::atomic<unsigned long> g_wgateOps{0}, g_wgateHits{0}, g_wgateWriterBlocked{0}, g_wgateWriterPassed{0};
+static std::atomic<unsigned long> g_stressRounds{0}, g_stressBigRounds{0};
+static std::atomic<bool> g_muteEvents{false};        // stress: file events are not compared, do not keep the bytes
+
 // ------------------------------------------------------------------ file events
 struct Event
 {
@@ -92,6 +118,7 @@ static std::string kindOfFd(int fd)
 }
 static void record(Event e)
 {
+  if (g_muteEvents.load()) return;
   std::lock_guard<std::mutex> g(g_evMutex);
   if (e.kind == 'A' && e.data.size() > (8u << 20))
   { // boundary cases with ~100 MiB values are implementation-only: their traces are never printed, do not keep the bytes
@@ -182,6 +209,35 @@ extern "C"
     cut.tv_nsec = t % 1000000000LL;
     int rc = real(c, m, clk, &cut);
     return rc == ETIMEDOUT ? 0 : rc;
+  }
+
+  int pthread_rwlock_wrlock(pthread_rwlock_t *l)
+  {
+    static auto real = (int (*)(pthread_rwlock_t *))dlsym(RTLD_NEXT, "pthread_rwlock_wrlock");
+    static auto realTry = (int (*)(pthread_rwlock_t *))dlsym(RTLD_NEXT, "pthread_rwlock_trywrlock");
+    kvh::Gate &g = kvh::g_gate;
+    if (g.armed.load() && l == g.target.load() && pthread_equal(pthread_self(), g.reader))
+    {
+      // the reader (get(k), cache-miss path) is about to take _cacheMutex exclusively: let the writer run, and wait until it has
+      // returned or is blocked on _mutex (bounded: 10 s of real time, then the reader goes on — counted, reported by `stats`)
+      g.armed = false;
+      const bool w = g.gatedIsWriter.load();
+      (w ? kvh::g_wgateHits : kvh::g_gateHits)++;
+      g.go = true;
+      for (int i = 0; i < 100000 && !g.writerDone.load() && !g.writerBlocked.load(); ++i) usleep(100);
+      if (g.writerDone.load()) (w ? kvh::g_wgateWriterPassed : kvh::g_gateWriterPassed)++;
+      else if (g.writerBlocked.load()) (w ? kvh::g_wgateWriterBlocked : kvh::g_gateWriterBlocked)++;
+      else kvh::g_gateTimeouts++;
+      return real(l);
+    }
+    if (g.writerActive.load() && l == g.storeLock.load() && pthread_equal(pthread_self(), g.writer))
+    {
+      int rc = realTry(l);
+      if (rc == 0) return 0; // acquired: same effect as a successful pthread_rwlock_wrlock
+      g.writerBlocked = true;
+      return real(l);
+    }
+    return real(l);
   }
 
   ssize_t write(int fd, const void *b, size_t n)
